@@ -18,7 +18,8 @@ EXPLANATION = ("Necessary structural clauses of C02 decided from MIR/HIR facts a
                "entry stores, entries processed before the schema is finalised, variants padded to one size; (R7) an array column "
                "with an inline prefix always records its length; (R8) the offset width of the indexed value store covers what is "
                "written with it. Value equality for any entry is not decided."
-               " (R1 fold) the sign-folding helper shifts under a comparison with a constant bound; (R3 array-length-measured) the value sizing the array length column is `<array>.size` on every arm; (R10) reader property offsets are the running sum of the sizes before, read before the accumulator is advanced.")
+               " (R1 fold) the sign-folding helper shifts under a comparison with a constant bound; (R3 array-length-measured) the value sizing the array length column is `<array>.size` on every arm; (R10) reader property offsets are the running sum of the sizes before, read before the accumulator is advanced."
+               ' Added later: (R11) writer and reader agree on where a variant ends; (R12) the inline prefix of an array is bounded by 31 before it is packed; (R13) entries equal on every sort key compare Equal; (R14) sizes are compared before they are narrowed (reader); (R15) every value handed to a store handle is registered in the store; (R8) the offset width comes from the total size only.')
 ASSUMPTIONS = ["byteorder read_int sign-extends", "rustc MIR/HIR construction and trait resolution", "reference table for the entry encoding"]
 
 SIGNED = r"<(i8|i16|i32|i64|i128|isize)>"
